@@ -131,6 +131,36 @@ def parse_constants(text):
     return {"progress_text": "data fetched. waiting for render process..", "sep_regex": rex[0]}
 
 
+def shutdown_shape(text):
+    """QPlugin.shutdown of qs/qserve.py as coq/C19/ModelConn.v models it (cstep CDisconnect with dec_repo): a loop over
+    the handler's own running_jobs values, skipping a job when ITS OWN done flag is set (`if j.done: continue`), and
+    workq.pushjob(j) of the others; nothing else with an effect (logging calls allowed).  Returns a description of the
+    body in a canonical form; the check compares it with the expected one."""
+    tree = ast.parse(text)
+    fn = None
+    for node in ast.walk(tree):
+        if isinstance(node, ast.ClassDef) and node.name == "QPlugin":
+            for m in node.body:
+                if isinstance(m, ast.FunctionDef) and m.name == "shutdown":
+                    fn = m
+    if fn is None:
+        raise Shape("QPlugin.shutdown not found in qserve.py")
+    body = [b for b in fn.body if not (isinstance(b, ast.Expr) and isinstance(b.value, ast.Constant))]
+    if len(body) != 1 or not isinstance(body[0], ast.For) or body[0].orelse or not isinstance(body[0].target, ast.Name):
+        return "not a single for loop: " + "; ".join(ast.unparse(b)[:80] for b in body)
+    loop = body[0]
+    v = loop.target.id
+    out = ["for %s in %s" % (v, ast.unparse(loop.iter))]
+    for st in loop.body:
+        if isinstance(st, ast.Expr) and isinstance(st.value, ast.Call) and ast.unparse(st.value.func).startswith("logger."):
+            continue
+        out.append(" ".join(ast.unparse(st).split()))
+    return " | ".join(out)
+
+
+SHUTDOWN_EXPECTED = "for j in list(self.running_jobs.values()) | if j.done: continue | self.workq.pushjob(j)"
+
+
 def qinfo_sites(text):
     """The queue reads of do_render_status as the source has them: the list of job-id expressions passed to
     self.qserve.qinfo(jobid=...) in source order, each resolved to the f-string it denotes (a Name is resolved to the
